@@ -37,6 +37,14 @@ macro_rules! c07_rem {
             kani::cover!(r != 0, "W:non-zero truncated remainder");
             kani::cover!(re != 0, "W:non-zero remainder");
             assert!((x % y).to_bits() as $Wd == r, "a % b = a - b*trunc(a/b)");
+            {
+                // assigning and by-reference operator forms
+                let mut t = x;
+                t %= y;
+                let mut u = x;
+                u %= &y;
+                assert!(t.to_bits() as $Wd == r && u.to_bits() as $Wd == r && (&x % &y).to_bits() as $Wd == r, "a %= b, a %= &b, &a % &b equal a % b");
+            }
             match x.checked_rem(y) {
                 Some(v) => assert!(v.to_bits() as $Wd == r, "checked_rem = Some(a % b)"),
                 None => assert!(false, "checked_rem is Some for a non-zero divisor"),
@@ -62,6 +70,14 @@ macro_rules! c07_rem {
             kani::cover!(true, "W:reached");
             kani::cover!(true, "W:reached");
             assert!((x % y).to_bits() as $Wd == r, "a % b = a - b*trunc(a/b)");
+            {
+                // assigning and by-reference operator forms
+                let mut t = x;
+                t %= y;
+                let mut u = x;
+                u %= &y;
+                assert!(t.to_bits() as $Wd == r && u.to_bits() as $Wd == r && (&x % &y).to_bits() as $Wd == r, "a %= b, a %= &b, &a % &b equal a % b");
+            }
             match x.checked_rem(y) {
                 Some(v) => assert!(v.to_bits() as $Wd == r, "checked_rem = Some(a % b)"),
                 None => assert!(false, "checked_rem is Some for a non-zero divisor"),
@@ -178,6 +194,11 @@ macro_rules! c07_remint {
             let re = aw.rem_euclid(nw);
             kani::cover!(re != 0, "W:non-zero remainder");
             assert!((x % n).to_bits() as $Wd == r, "a % n = a - n*trunc(a/n)");
+            {
+                let mut t = x;
+                t %= n;
+                assert!(t.to_bits() as $Wd == r, "a %= n equals a % n");
+            }
             match x.checked_rem_int(n) {
                 Some(v) => assert!(v.to_bits() as $Wd == r, "checked_rem_int = Some(a % n)"),
                 None => assert!(false, "checked_rem_int is Some for a non-zero divisor"),
@@ -203,6 +224,11 @@ macro_rules! c07_remint {
             let re = aw.rem_euclid(nw);
             kani::cover!(true, "W:reached");
             assert!((x % n).to_bits() as $Wd == r, "a % n = a - n*trunc(a/n)");
+            {
+                let mut t = x;
+                t %= n;
+                assert!(t.to_bits() as $Wd == r, "a %= n equals a % n");
+            }
             match x.checked_rem_int(n) {
                 Some(v) => assert!(v.to_bits() as $Wd == r, "checked_rem_int = Some(a % n)"),
                 None => assert!(false, "checked_rem_int is Some for a non-zero divisor"),
